@@ -15,8 +15,31 @@ def pPhase : String → Option Phase
 def showFut : Fut → String
   | .pending => "pending" | .result => "result" | .exc true => "exc-fault" | .exc false => "exc-other" | .killedErr => "killed"
 
+/-
+further line shapes (the small models of user code that is not a lifecycle hook of a transition):
+  construct <before|after|none>                        -> constructed=<0|1> raised=<none|fault>
+  outcall <emitting|emitted|none> <before|after|->     -> stored=<0|1> notified=<0|1> raised=<none|fault>
+  callall <0|1>*                                       -> ran=<n> logged=<k>      (one flag per callback: it raises)
+-/
+def showErr : Option Err → String
+  | none => "none" | some true => "fault" | some false => "internal"
+
 def handle (line : String) : String :=
+  let b (x : Bool) := if x then "1" else "0"
   match (line.trimAscii.toString.splitOn " ").filter (· ≠ "") with
+  | ["construct", v] =>
+      let f : Option Bool := if v = "before" then some false else if v = "after" then some true else none
+      let r := construct f
+      s!"constructed={b r.1.isSome} raised={showErr r.2}"
+  | ["outcall", hk, v] =>
+      let f : Option (OHook × Bool) :=
+        if hk = "emitting" then some (.emitting, v = "after") else if hk = "emitted" then some (.emitted, v = "after") else none
+      let r := outCall f
+      s!"stored={b r.1.stored} notified={b r.1.notified} raised={showErr r.2}"
+  | "callall" :: flags =>
+      let cbs : List (Callback Nat) := flags.map fun fl => { eff := (· + 1), raises := fl = "1" }
+      let r := callAll cbs 0
+      s!"ran={r.1} logged={r.2.2}"
   | [fr, tg, isf, ph, var] =>
     match pLabel fr, pLabel tg with
     | some l, some t =>
